@@ -67,6 +67,8 @@ int __wrap_usleep(unsigned us) {
     sc_point(3, 0);
     return 0;
 }
+/* a scheduling point for harnesses that have seams of their own (e.g. a wrapped read()) */
+void sc_yield(void) { sc_point(3, 0); }
 static void (*body)(int);
 /* thread sanitizer annotations (present only in the tsan flavour): the pool threads are reused across executions,
  * so the edges "harness set-up -> thread body" and "thread body -> harness read-out" that pthread_create/join would
